@@ -189,6 +189,11 @@ func (verify *VerifyServerController) handlePairVerifyFinish(in util.Container) 
 			return nil, fmt.Errorf("No LTPK available for client %s", username)
 		}
 
+		if len(entity.PrivateKey) > 0 {
+			// The entity of the accessory itself is no controller
+			return nil, fmt.Errorf("Client %s is unknown", username)
+		}
+
 		var material []byte
 		material = append(material, verify.session.OtherPublicKey[:]...)
 		material = append(material, []byte(username)...)
